@@ -19,6 +19,7 @@ import (
 	"path"
 	"strings"
 	"sync"
+	"time"
 
 	"github.com/martian-lang/martian/martian/syntax"
 	"github.com/martian-lang/martian/martian/util"
@@ -251,6 +252,9 @@ func (h *VerifHarness) RetryRestart() (bool, error) {
 		return false, nil
 	}
 	h.Ps.Unlock()
+	// mrp sleeps --retry-wait (default one second) before it restarts; the
+	// clock of files rewritten with "time=" moves on by as much
+	vshim.ClockOffset += time.Second
 	ps, err := h.Rt.ReattachToPipestance(h.psid, h.psdir, h.src, h.srcPath, h.mroPaths,
 		"verif", nil, true, false, ctx)
 	if err != nil {
